@@ -120,6 +120,12 @@ def _to_str(s, enc=locale.getpreferredencoding()):'''}]},
      "edits": [{"file": "cnvlib/coverage.py",
                 "old": "    if processes is not None and processes < 1:\n",
                 "new": "    if False:\n"}]},
+    {"id": "c09-bedcov-type-guessing", "property": "C09", "expect": ["D1", "D3", "F1"],
+     "why": "revert of repair 061dd98: bin / contig names parsed with type inference and default NA strings",
+     "edits": [{"file": "cnvlib/coverage.py",
+                "old": '        dtype={"chromosome": str, "gene": str},\n        keep_default_na=False,\n'
+                       '        na_values={"gene": [""]},\n',
+                "new": ""}]},
     {"id": "c09-count-dups", "property": "C09", "expect": ["D1", "D2"],
      "why": "--count no longer drops duplicate-flagged reads",
      "edits": [{"file": "cnvlib/coverage.py",
